@@ -104,6 +104,98 @@ fn inside_componentwise(raw: &str, root: &str) -> bool {
     a.len() >= b.len() && a[..b.len()] == b[..]
 }
 
+
+// ------------------------------------------------------------------ decorations
+// A decorated case carries the core string in "raw" (with {ROOT}/{SB} placeholders) and
+// "deco": {"pre","inf","suf"}; the worker substitutes the placeholders FIRST and then rewrites the
+// separators of the whole core (so an absolute core becomes `\var\tmp\…`, `%2Fvar%2Ftmp…`, …).
+const PREFIXES: [&str; 27] = [
+    "", "./", ".//", "././/", "./././", "//", "/", "/./", "./.", " ", "\t", "\u{a0}", "\u{2003}", "\u{feff}", "\\", ".\\", "%2F", "%2e%2e%2f", "%2e/", "\0", "~/", "file://", "LONG./", "LONG.//",
+    ". /", "./ ", "\u{2024}/",
+];
+const INFIXES: [&str; 10] = ["id", "dbl", "dot", "bs", "mixed", "pct", "pctl", "fw", "div", "first_dbl"];
+const SUFFIXES: [&str; 13] = ["", "/", "/.", "//", "/./", "/./.", " ", "\u{a0}", "\u{2003}", "\0", "%00", "\\", "/ "];
+
+fn apply_infix(inf: &str, core: &str) -> String {
+    match inf {
+        "dbl" => core.replace('/', "//"),
+        "dot" => core.replace('/', "/./"),
+        "bs" => core.replace('/', "\\"),
+        "mixed" => {
+            let mut k = 0;
+            core.chars()
+                .map(|c| {
+                    if c == '/' {
+                        k += 1;
+                        if k % 2 == 0 {
+                            '\\'
+                        } else {
+                            '/'
+                        }
+                    } else {
+                        c
+                    }
+                })
+                .collect()
+        }
+        "pct" => core.replace('/', "%2F"),
+        "pctl" => core.replace("..", "%2e%2e").replace('/', "%2f"),
+        "fw" => core.replace("..", "\u{ff0e}\u{ff0e}").replace('/', "\u{ff0f}"),
+        "div" => core.replace('/', "\u{2215}"),
+        "first_dbl" => match core.char_indices().skip(1).find(|(_, c)| *c == '/') {
+            Some((i, _)) => format!("{}//{}", &core[..i], &core[i + 1..]),
+            None => core.to_string(),
+        },
+        _ => core.to_string(),
+    }
+}
+fn decorate(deco: Option<&Value>, core: &str) -> String {
+    let d = match deco {
+        Some(d) if d.is_object() => d,
+        _ => return core.to_string(),
+    };
+    let pre = d["pre"].as_str().unwrap_or("");
+    let pre = match pre {
+        "LONG./" => "./".repeat(1500),
+        "LONG.//" => format!("{}/", "./".repeat(1500)),
+        p => p.to_string(),
+    };
+    format!("{pre}{}{}", apply_infix(d["inf"].as_str().unwrap_or("id"), core), d["suf"].as_str().unwrap_or(""))
+}
+
+// ------------------------------------------------------------------ positive (effect) oracle
+/// Where the operating system lands for an acceptable string: <root>/<non-trivial segments>.
+/// None for a string the property says must be refused.
+fn expected_target(root: &std::path::Path, raw: &str) -> Option<PathBuf> {
+    if lexically_absolute(raw) || lexically_parent(raw) {
+        return None;
+    }
+    let mut p = root.to_path_buf();
+    for s in raw.split('/') {
+        if !s.is_empty() && s != "." {
+            p.push(s);
+        }
+    }
+    Some(p)
+}
+/// component-wise `p` at or below `base` ('' and '.' do not count; a `..` disqualifies)
+fn at_or_below(p: &std::path::Path, base: &std::path::Path) -> bool {
+    let c = |x: &std::path::Path| -> Option<Vec<String>> {
+        let s = x.to_string_lossy().to_string();
+        if s.split('/').any(|k| k == "..") {
+            return None;
+        }
+        Some(s.split('/').filter(|k| !k.is_empty() && *k != ".").map(|k| k.to_string()).collect())
+    };
+    match (c(p), c(base)) {
+        (Some(a), Some(b)) => a.len() >= b.len() && a[..b.len()] == b[..],
+        _ => false,
+    }
+}
+fn has_children(d: &std::path::Path) -> bool {
+    std::fs::read_dir(d).map(|mut r| r.next().is_some()).unwrap_or(false)
+}
+
 struct Step<'a> {
     sbx: &'a Sandbox,
     viol: Vec<(String, String)>,
@@ -128,6 +220,83 @@ impl<'a> Step<'a> {
             self.viol.push((format!("{name}: bytes of a file outside the root copied to {}", show_comps(&p)), "outside_read_copied".into()));
         }
         let _ = self.sbx;
+    }
+}
+
+
+/// Positive half of the oracle: a tool that reports success on an acceptable string must have had its
+/// effect at <root>/<segments> and nowhere else (an effect outside the snapshotted scratch tree is
+/// invisible to the before/after comparison; a success without the effect in place gives it away).
+fn effect_at_target(st: &mut Step, kind: &str, root: &std::path::Path, raw: &str, stdout: &[String], stderr_empty: bool) {
+    let arg = if matches!(model_kind(kind), 1 | 2 | 5) { raw.trim() } else { raw };
+    let t = match expected_target(root, arg) {
+        Some(t) => t,
+        None => return, // `not_refused` reports it
+    };
+    let mut bad = |what: String| st.viol.push((format!("{kind} '{}': reported success, but {what}", short(raw)), "effect_not_at_root_join".into()));
+    let holds = |suffix_only: bool| -> bool {
+        match std::fs::read(&t) {
+            Ok(b) => {
+                if suffix_only {
+                    b.ends_with(b"NEW\n")
+                } else {
+                    b == b"NEW\n"
+                }
+            }
+            Err(_) => false,
+        }
+    };
+    let entry_ok = |e: &str| -> bool {
+        let p = root.join(e);
+        !e.starts_with('/') && std::fs::symlink_metadata(&p).is_ok() && at_or_below(&p, &t)
+    };
+    match kind {
+        "write" | "write_plain" | "auto_write" | "tool_patch_add" | "tool_patch_move" | "auto_patch" => {
+            if !holds(false) {
+                bad(format!("{} does not hold the written bytes", t.display()));
+            }
+        }
+        "write_append" => {
+            if !holds(true) {
+                bad(format!("{} does not end with the appended bytes", t.display()));
+            }
+        }
+        "read" => {
+            let want = std::fs::read(&t).ok().map(|b| String::from_utf8_lossy(&b).to_string());
+            if want.is_none() || stdout.first() != want.as_ref() {
+                bad(format!("the output is not the content of {}", t.display()));
+            }
+        }
+        "ls" => {
+            if let Some(e) = stdout.iter().find(|e| !entry_ok(e)) {
+                bad(format!("the entry '{}' is not at or below {}", short(e), t.display()));
+            } else if stdout.is_empty() && stderr_empty && t.is_dir() && has_children(&t) {
+                bad(format!("nothing of {} was listed", t.display()));
+            }
+        }
+        "grep" => {
+            if let Some(l) = stdout.iter().find(|l| !entry_ok(l.split(':').next().unwrap_or(""))) {
+                bad(format!("the match '{}' is not in a file at or below {}", short(l), t.display()));
+            } else if stdout.is_empty() && stderr_empty {
+                let hit = |b: &[u8]| contains(b, b"in-") || contains(b, MARK.as_bytes());
+                let any = if t.is_file() { std::fs::read(&t).map(|b| hit(&b)).unwrap_or(false) } else { list_tree(&t).values().any(|n| matches!(n, Node::File(b) if hit(b))) };
+                if any {
+                    bad(format!("no match reported although {} has matching lines", t.display()));
+                }
+            }
+        }
+        "bash" => {
+            if stdout.first().map(|l| l.trim_end_matches('\n')) != Some(&*t.to_string_lossy()) {
+                bad(format!("the command did not run in {}", t.display()));
+            }
+        }
+        "task" => {
+            let out = std::path::PathBuf::from(stdout.first().cloned().unwrap_or_default());
+            if !(at_or_below(&out, &t) && at_or_below(&t, &out)) {
+                bad(format!("the resolved working directory is not {}", t.display()));
+            }
+        }
+        _ => {}
     }
 }
 
@@ -175,7 +344,7 @@ fn run_case(rt: &tokio::runtime::Runtime, case: &Value) -> Obs {
     let kind = case["kind"].as_str().unwrap_or("read").to_string();
     let cwd = case["cwd"].as_u64().unwrap_or(0);
     let sbx = Sandbox::new("c13", &workspace_listing());
-    let raw = sbx.subst(case["raw"].as_str().unwrap_or(""));
+    let raw = decorate(case.get("deco"), &sbx.subst(case["raw"].as_str().unwrap_or("")));
     let root_s = sbx.root.to_string_lossy().to_string();
     let ws = Workspace::new(&sbx.root).expect("workspace");
     std::env::set_current_dir(sbx.cwd_dir(cwd)).expect("chdir");
@@ -208,6 +377,7 @@ fn run_case(rt: &tokio::runtime::Runtime, case: &Value) -> Obs {
             let text = if name == "bash" { String::new() } else { tool_output_text(&o) };
             st.check(&kind, &before, &after, verdict != V_OK, &text);
             if o.exit_code == 0 {
+                effect_at_target(&mut st, &kind, &sbx.root, &raw, &o.stdout, o.stderr.is_empty());
                 if name == "write" {
                     eff = single_changed_file(&before, &after);
                 } else if name == "bash" {
@@ -234,6 +404,9 @@ fn run_case(rt: &tokio::runtime::Runtime, case: &Value) -> Obs {
             }
             let after = sbx.snapshot();
             st.check(&kind, &before, &after, verdict != V_OK, "");
+            if verdict == V_OK {
+                effect_at_target(&mut st, &kind, &sbx.root, &raw, &[out.clone()], true);
+            }
         }
         "patch_add" | "patch_delete" | "patch_update" | "patch_move" => {
             match Patch::parse(&patch_text(&kind, &raw)) {
@@ -257,6 +430,7 @@ fn run_case(rt: &tokio::runtime::Runtime, case: &Value) -> Obs {
             }
             st.check(&kind, &before, &after, verdict != V_OK, &tool_output_text(&o));
             if o.exit_code == 0 {
+                effect_at_target(&mut st, &kind, &sbx.root, &raw, &o.stdout, o.stderr.is_empty());
                 let created: Vec<Comps> = diff(&before, &after).into_iter().filter(|c| is_ws(&c.path) && !c.is_dir && c.kind == "created").map(|c| ws_rel(&c.path)).collect();
                 if created.len() == 1 {
                     eff = Some(created[0].clone());
@@ -369,6 +543,7 @@ fn run_case(rt: &tokio::runtime::Runtime, case: &Value) -> Obs {
             verdict = ck * 10 + tool;
             st.check(&kind, &before, &after, tool != V_OK, &text);
             if tool == V_OK && note.is_empty() {
+                effect_at_target(&mut st, &kind, &sbx.root, &raw, &[], true);
                 let created: Vec<Comps> = diff(&before, &after).into_iter().filter(|c| is_ws(&c.path) && !is_store(&c.path) && !c.is_dir && c.kind != "deleted").map(|c| ws_rel(&c.path)).collect();
                 if created.len() == 1 {
                     eff = Some(created[0].clone());
@@ -438,6 +613,100 @@ const FIXED: [&str; 64] = [
 ];
 const SEGS: [&str; 14] = ["", ".", "..", "a.txt", "d", "e", "x.txt", "new", "...", " ", "ws", "outside.txt", "é", ".rip"];
 
+
+// cores: (category, is_dir, string)
+const CORES: [(&str, bool, &str); 18] = [
+    ("absout", false, "{SB}/outside.txt"),
+    ("absout", true, "{SB}/elsewhere"),
+    ("absin", false, "{ROOT}/a.txt"),
+    ("climb", false, "../outside.txt"),
+    ("climb", true, "../elsewhere"),
+    ("rel", false, "a.txt"),
+    ("rel", true, "d"),
+    ("rel", false, "new.txt"),
+    // the first eight are the quick tier's representatives
+    ("absout", false, "{SB}/planted.txt"),
+    ("absout", false, "{SB}/elsewhere/d/x.txt"),
+    ("absout", true, "{SB}"),
+    ("absin", true, "{ROOT}/d"),
+    ("absin", false, "{ROOT}/new.txt"),
+    ("climb", false, "../planted.txt"),
+    ("climb", false, "d/../../outside.txt"),
+    ("climb", true, "d/e/../../../elsewhere/d"),
+    ("rel", false, "d/x.txt"),
+    ("rel", false, "d/new/f.txt"),
+];
+const FILE_TOOLS: [&str; 5] = ["read", "write", "write_plain", "write_append", "grep"];
+const DIR_TOOLS: [&str; 3] = ["ls", "grep", "bash"];
+const HEADERS: [&str; 4] = ["patch_add", "patch_delete", "patch_update", "patch_move"];
+
+fn deco_case(kind: &str, core: &str, pre: &str, inf: &str, suf: &str, cwd: u64) -> Value {
+    json!({"kind": kind, "raw": core, "deco": {"pre": pre, "inf": inf, "suf": suf}, "cwd": cwd})
+}
+fn header_safe(pre: &str, suf: &str) -> bool {
+    !pre.contains(['\n', '\r']) && !suf.contains(['\n', '\r'])
+}
+/// Every decoration around every core, one decoration at a time (prefix x core, infix x core,
+/// suffix x core), and each such string through every resolver: the builtin tools' (a tool that
+/// fits the core: file / directory), the task cwd's, the patch header parser, apply_patch's
+/// safe_join, the checkpoint's to_relative and the auto-checkpoint's files_for_invocation.
+/// `all_tools`: every fitting builtin tool instead of one in rotation.
+fn systematic(seed: u64, ncores: usize, all_tools: bool) -> Vec<Value> {
+    let mut v = vec![];
+    let mut k = seed as usize;
+    let mut decos: Vec<(&str, &str, &str)> = vec![];
+    for p in PREFIXES.iter() {
+        decos.push((p, "id", ""));
+    }
+    for i in INFIXES.iter().skip(1) {
+        decos.push(("", i, ""));
+    }
+    for s in SUFFIXES.iter().skip(1) {
+        decos.push(("", "id", s));
+    }
+    // the combinations the single decorations do not reach: a prefix that needs a rewritten core
+    decos.push(("./", "bs", ""));
+    decos.push(("./", "dbl", "/"));
+    decos.push((" ", "id", " "));
+    decos.push(("\u{a0}", "id", "\u{2003}"));
+    decos.push(("./", "pct", ""));
+    decos.push((".//", "id", "/."));
+    for (pre, inf, suf) in decos {
+        for (_, is_dir, core) in CORES.iter().take(ncores) {
+            k += 1;
+            let cwd = (k % 3) as u64;
+            let tools: &[&str] = if *is_dir { &DIR_TOOLS[..] } else { &FILE_TOOLS[..] };
+            if all_tools {
+                for t in tools {
+                    v.push(deco_case(t, core, pre, inf, suf, cwd));
+                }
+            } else {
+                v.push(deco_case(tools[k % tools.len()], core, pre, inf, suf, cwd));
+            }
+            v.push(deco_case("task", core, pre, inf, suf, ((k + 1) % 3) as u64));
+            if header_safe(pre, suf) {
+                v.push(deco_case(HEADERS[k % 4], core, pre, inf, suf, cwd));
+                if !*is_dir {
+                    v.push(deco_case(if k % 2 == 0 { "tool_patch_add" } else { "tool_patch_move" }, core, pre, inf, suf, ((k + 2) % 3) as u64));
+                    v.push(deco_case(if k % 3 == 0 { "auto_patch" } else { "auto_write" }, core, pre, inf, suf, cwd));
+                }
+            } else if !*is_dir {
+                v.push(deco_case("auto_write", core, pre, inf, suf, cwd));
+            }
+            v.push(deco_case(if k % 2 == 0 { "ck_create" } else { "ck_runner" }, core, pre, inf, suf, ((k + 1) % 3) as u64));
+        }
+    }
+    v
+}
+/// random triple of decorations around a random core
+fn gen_deco(r: &mut Rng, kind: &str) -> Value {
+    let (_, _, core) = *r.pick(&CORES[..]);
+    let pre = if r.chance(2, 3) { *r.pick(&PREFIXES[..]) } else { "" };
+    let inf = if r.chance(1, 3) { *r.pick(&INFIXES[..]) } else { "id" };
+    let suf = if r.chance(1, 3) { *r.pick(&SUFFIXES[..]) } else { "" };
+    deco_case(kind, core, pre, inf, suf, r.below(3))
+}
+
 fn gen_raw(r: &mut Rng) -> String {
     match r.below(10) {
         0 | 1 => r.pick(&BASES[..]).to_string(),
@@ -480,6 +749,9 @@ fn gen_case(r: &mut Rng) -> Value {
     let mut raw = gen_raw(r);
     if model_kind(kind) == 1 || model_kind(kind) == 2 || model_kind(kind) == 5 {
         raw = raw.replace(['\n', '\r'], "");
+    }
+    if r.chance(1, 4) {
+        return gen_deco(r, kind);
     }
     if r.chance(1, 60) {
         return json!({"kind": "rewind_id", "raw": *r.pick(&["../../../../decoy", "{SB}/decoy", "..", "", "missing", "../s1"]), "cwd": r.below(3)});
@@ -545,8 +817,8 @@ fn main() {
     }
     let verif_root = a.extra.get("verif").cloned().unwrap_or_else(|| env!("CARGO_MANIFEST_DIR").to_string() + "/..");
     let mut res = RunResult::new("C13", &a);
-    res.rule = "cases = (path-taking argument, path string, process cwd): 19 argument kinds (read/write x3/ls/grep/bash cwd/task cwd/4 patch headers/apply_patch add+move/checkpoint create via Workspace and via ToolRunner + rewind/auto-checkpoint of write and apply_patch/rewind id) x strings from a grammar (plain, `..` in any position, absolute inside/outside/next to the root, '.', '', trailing and doubled slashes, unicode blanks, backslashes, 255/256/4096-byte components, long paths, NUL, random segment compositions) x cwd in {root, sibling, parent}; non-trivial = the string has at least one non-trivial segment".into();
-    let n = if a.thorough() { 40000 } else { 1500 };
+    res.rule = "cases = (path-taking argument, path string, process cwd): 19 argument kinds (read/write x3/ls/grep/bash cwd/task cwd/4 patch headers/apply_patch add+move/checkpoint create via Workspace and via ToolRunner + rewind/auto-checkpoint of write and apply_patch/rewind id) x strings from a grammar (plain, `..` in any position, absolute inside/outside/next to the root, '.', '', trailing and doubled slashes, unicode blanks, backslashes, 255/256/4096-byte components, long paths, NUL, random segment compositions) + SYSTEMATIC block: every prefix (./ .// ././/  // / /./ blanks, unicode blanks, BOM, backslash, %2F, %2e%2e%2f, NUL, ~/, file://, 3000-byte ./ runs), infix (// /./ backslash, mixed, %2F, fullwidth, division slash) and suffix (/ /. // /./ blanks, NUL, %00, backslash) decoration around every core (absolute outside / absolute inside / `..` climbing / plain relative; file and directory) through each of the six resolvers, + random decoration triples; x cwd in {root, sibling, parent}; the oracle judges by effect: nothing outside the root changes, no outside bytes in outputs, and a reported success has its effect exactly at <root>/<segments>; non-trivial = the string has at least one non-trivial segment".into();
+    let n = if a.thorough() { 30000 } else { 900 };
     let mut r = Rng::new(a.seed);
     let mut jobs: Vec<Value> = if let Some(rp) = &a.replay {
         let j: Value = serde_json::from_str(&std::fs::read_to_string(rp).unwrap()).unwrap();
@@ -555,6 +827,7 @@ fn main() {
         corpus(&std::path::Path::new(&verif_root).join("corpus/C13"))
     };
     if a.replay.is_none() {
+        jobs.extend(if a.thorough() { systematic(a.seed, CORES.len(), true) } else { systematic(a.seed, 8, false) });
         for _ in 0..n {
             jobs.push(gen_case(&mut r));
         }
@@ -568,6 +841,18 @@ fn main() {
         let kind = j["kind"].as_str().unwrap_or("");
         res.bump(&format!("kind={kind}"));
         res.bump(&format!("cwd={}", j["cwd"]));
+        if let Some(d) = j.get("deco") {
+            res.bump("decorated");
+            if d["pre"].as_str().map(|x| !x.is_empty()).unwrap_or(false) {
+                res.bump("deco-prefix");
+            }
+            if d["inf"].as_str().map(|x| x != "id").unwrap_or(false) {
+                res.bump("deco-infix");
+            }
+            if d["suf"].as_str().map(|x| !x.is_empty()).unwrap_or(false) {
+                res.bump("deco-suffix");
+            }
+        }
         if o.get("panicked").is_some() || o.get("crashed").is_some() {
             res.impl_panics += 1;
             res.oracle_violations.push(OracleViolation { case_id: i as i64, what: format!("{kind} panicked / the worker died"), class: "panic".into(), replay: j.clone() });
@@ -600,7 +885,7 @@ fn main() {
         }
         let raw = j["raw"].as_str().unwrap_or("");
         if raw.split('/').any(|s| !s.is_empty() && s != ".") {
-            distinct.add(&format!("{kind}|{raw}|{}", j["cwd"]));
+            distinct.add(&format!("{kind}|{raw}|{}|{}", j.get("deco").map(|d| d.to_string()).unwrap_or_default(), j["cwd"]));
             if res.samples.len() < 3 && i % 11 == 5 {
                 res.samples.push(json!({"case": j, "verdict": ob.verdict, "out": ob.out}));
             }
